@@ -3,6 +3,7 @@ package alephium
 import (
 	"context"
 	"encoding/hex"
+	"time"
 
 	sdk "github.com/alephium/go-sdk"
 	"github.com/alephium/wormhole-fork/node/pkg/vaa"
@@ -61,8 +62,11 @@ func (w *Watcher) handleObsvRequest(ctx context.Context, logger *zap.Logger, cli
 			}
 
 			confirmed := make([]*reobservedEvent, 0)
+			now := time.Now().UnixMilli()
 			for _, event := range events {
-				if event.header.Height+int32(event.confirmations) <= *currentHeight {
+				// same finality rule as the polling path: enough blocks and enough wall-clock time
+				duration := getConfirmationDuration(w.isMainnet, event.isTransfer, event.confirmations)
+				if event.header.Height+int32(event.confirmations) <= *currentHeight && event.header.Timestamp+duration <= now {
 					logger.Info("re-observed event",
 						zap.String("txId", txId),
 						zap.String("blockHash", blockHash),
@@ -125,6 +129,10 @@ func (w *Watcher) getGovernanceEventsByTxId(
 
 	reobservedEvents := make([]*reobservedEvent, 0)
 	for _, event := range events.Events {
+		if event.ContractAddress != address {
+			// only events emitted by the governance (core) contract are wormhole messages
+			continue
+		}
 		if event.EventIndex != WormholeMessageEventIndex {
 			continue
 		}
@@ -152,6 +160,7 @@ func (w *Watcher) getGovernanceEventsByTxId(
 			msg.consistencyLevel,
 			header,
 			txId,
+			msg.IsTransferTokenVAA(),
 		})
 	}
 	return reobservedEvents, nil
@@ -162,4 +171,5 @@ type reobservedEvent struct {
 	confirmations uint8
 	header        *sdk.BlockHeaderEntry
 	txId          string
+	isTransfer    bool
 }
